@@ -275,21 +275,29 @@ Proof. destruct b; reflexivity. Qed.
 (* ------------------------------------------------------------------------------------------------ tracked Json / array values *)
 (* whatever value is assigned to obj.attr (plain, tracked by obj itself, tracked by ANOTHER object, tracked for another attribute),
    the value the object ends up holding notifies (obj, attr) when it is edited in place *)
+Lemma keeps_owner obj attr v : (tv_is_tracked v && (tv_owner_is v obj && (tv_attr_is v attr && true))) = true -> tv_notifies v = Some (obj, attr).
+Proof.
+  destruct v as [p|o a p|i]; cbn [tv_is_tracked tv_owner_is tv_attr_is tv_notifies andb]; try discriminate.
+  intros H. assert (o = obj /\ a = attr) as [-> ->] by lia. reflexivity.
+Qed.
+
 Theorem json_validate_owner obj attr v : tv_notifies (json_validate obj attr v) = Some (obj, attr).
 Proof.
-  unfold json_validate, json_keeps. destruct v as [p|o a p]; cbn [tv_is_tracked tv_owner_is tv_attr_is tv_payload tv_notifies andb]; [reflexivity|].
-  break_if; cbn [tv_notifies]; [|reflexivity]. assert (o = obj /\ a = attr) as [-> ->] by lia. reflexivity.
+  unfold json_validate. cbv zeta. break_if; [|reflexivity]. unfold json_keeps in *. apply keeps_owner. assumption.
 Qed.
 
 Theorem array_validate_owner obj attr v : tv_notifies (array_validate obj attr v) = Some (obj, attr).
 Proof.
-  unfold array_validate, array_keeps. destruct v as [p|o a p]; cbn [tv_is_tracked tv_owner_is tv_attr_is tv_payload tv_notifies andb]; [reflexivity|].
-  break_if; cbn [tv_notifies]; [|reflexivity]. assert (o = obj /\ a = attr) as [-> ->] by lia. reflexivity.
+  unfold array_validate. break_if; [|reflexivity]. unfold array_keeps in *. apply keeps_owner. assumption.
 Qed.
 
 (* the payload is never altered by validate *)
 Theorem json_validate_payload obj attr v : tv_payload (json_validate obj attr v) = tv_payload v.
-Proof. unfold json_validate. break_if; reflexivity. Qed.
+Proof. unfold json_validate. cbv zeta. break_if; destruct v; reflexivity. Qed.
+
+Theorem identity_transport :
+  (forall s, str_sql2py (str_py2sql s) = s) /\ (forall b, bytes_sql2py (bytes_py2sql b) = b) /\ (forall z, int_sql2py (int_py2sql z) = z).
+Proof. repeat split. Qed.
 
 (* ------------------------------------------------------------------------------------------------ witnesses for the known findings *)
 Lemma date_999_valid : valid_date (mk_date 999 12 31).
